@@ -4,6 +4,7 @@ import (
 	"bytes"
 	"context"
 	"fmt"
+	"math/rand"
 	"sort"
 	"sync"
 	"time"
@@ -80,17 +81,10 @@ func (f *fakeWatchServer) snapshot() []*etcdserverpb.WatchResponse {
 	return append([]*etcdserverpb.WatchResponse(nil), f.sent...)
 }
 
-func runC13(c *harness.Case) {
-	r := c.Rng
-	kind := c13Engines[c.Index%len(c13Engines)]
-	names := []string{"a", "a/b", "ab", "b", "c/d", "c"}
-	var keys []string
-	for _, nm := range names[:3+r.Intn(4)] {
-		keys = append(keys, harness.Prefix+"/"+nm)
-	}
-	const start = 1000
-	// candidate borders: internal keys of (raw key, revision) with revisions in the window the history will use
-	nOps := 30 + r.Intn(60)
+// partitionedStore builds an engine whose partitioning is controlled: memkv/Badger behind a GetPartitions
+// override, or the TiKV mock pre-split into regions, with borders drawn from the (raw key, revision) space
+// the coming history will use.
+func partitionedStore(c *harness.Case, r *rand.Rand, kind string, keys []string, start int, nOps int) (kv storage.KvStorage, eng *harness.Engine, borders [][]byte, ok bool) {
 	cand := func() []byte {
 		k := keys[r.Intn(len(keys))]
 		switch r.Intn(6) {
@@ -103,7 +97,6 @@ func runC13(c *harness.Case) {
 		}
 	}
 	nb := r.Intn(6)
-	var borders [][]byte
 	for i := 0; i < nb; i++ {
 		b := cand()
 		dup := false
@@ -118,9 +111,7 @@ func runC13(c *harness.Case) {
 	}
 	sort.Slice(borders, func(i, j int) bool { return bytes.Compare(borders[i], borders[j]) < 0 })
 
-	var eng *harness.Engine
 	var err error
-	var kv storage.KvStorage
 	base := kind
 	if harness.IsMetricsKind(kind) {
 		base = kind[:len(kind)-2]
@@ -129,14 +120,14 @@ func runC13(c *harness.Case) {
 		eng, err = harness.NewEngine("tikv", borders...)
 		if err != nil {
 			c.Inconclusive(err.Error())
-			return
+			return nil, nil, nil, false
 		}
 		kv = eng.KV
 	} else {
 		eng, err = harness.NewEngine(base)
 		if err != nil {
 			c.Inconclusive(err.Error())
-			return
+			return nil, nil, nil, false
 		}
 		w := harness.NewWrap(eng.KV)
 		shuffleSeed := r.Int63()
@@ -162,6 +153,23 @@ func runC13(c *harness.Case) {
 			return ps, true
 		}
 		kv = w
+	}
+	return kv, eng, borders, true
+}
+
+func runC13(c *harness.Case) {
+	r := c.Rng
+	kind := c13Engines[c.Index%len(c13Engines)]
+	names := []string{"a", "a/b", "ab", "b", "c/d", "c"}
+	var keys []string
+	for _, nm := range names[:3+r.Intn(4)] {
+		keys = append(keys, harness.Prefix+"/"+nm)
+	}
+	const start = 1000
+	nOps := 30 + r.Intn(60)
+	kv, eng, borders, ok := partitionedStore(c, r, kind, keys, start, nOps)
+	if !ok {
+		return
 	}
 	defer eng.Close()
 	var rm *harness.RecMetrics
